@@ -19,7 +19,7 @@ PROP = dict(
         thorough_seeds=2,
         rule="half of the shapes repeat a field name in sibling embedded structs or repeat an embedded struct type under two parents (ambiguous promoted names, diamonds); n shapes; per shape the flattened form, the generated nesting (depth 0-5, thorough 0-8) and 1 (thorough 2) random re-nesting of "
              "the same units: leaves string/int/bool/Logger/provider pointer/interfaces, exported or unexported, untagged 22%, foreign 14%, "
-             "malformed 4%, custom tag 10%, recognised 50% over wire/func/value/prop/prefix/logger (with duplicates, shadowed prop, extra "
+             "malformed 4%, custom tag 10% (half of the custom tag texts are STRUCTURED: value + 1-3 named arguments, each a flag, 1-3 words, one bracketed group or 2-4 items mixing words and bracketed groups; groups in () [] {} hold 1-5 words separated by blanks / commas, nested up to depth 2 — oracle scan-custom-args reads value and arguments off the tag text with the harness' own reader, not the library's parser), recognised 50% over wire/func/value/prop/prefix/logger (with duplicates, shadowed prop, extra "
              "arguments); structs embedded untagged (descended), embedded tagged, embedded pointer, named, ScanGrp, ConfigurationProperties marker; "
              "non-trivial = at least one embedded level and at least one recognised exported unit; distinct = distinct scenario lines",
         trusted_base=COMMON_TB + ["reflect.StructOf builds types that reflect treats like compiled ones (checked against 4 compiled static types in the corpus)",
